@@ -83,6 +83,7 @@ func runC15(c *core.Ctx) error {
 			spec = core.SelAll()
 		} else {
 			spec = core.GenSelector(c.Rand, g, 0, false, false)
+			distSelector(c, spec)
 		}
 		U := core.RunWalk(g, spec, core.WalkCfg{}, false)
 		if U.Compile != "" || U.Outcome != "ok" || len(U.Visits) == 0 {
